@@ -98,15 +98,17 @@ class MTSPEnv(RL4COEnvBase):
         # Update the current length
         current_length = td["current_length"] + get_distance(cur_loc, prev_loc)
 
-        # If done, we add the distance from the current_node to the depot as well
-        current_length = torch.where(
+        # If done, we add the distance from the current_node to the depot as well. The closing leg is
+        # not stored in `current_length`: a finished instance that keeps being stepped (depot padding)
+        # would otherwise count it a second time
+        closed_length = torch.where(
             done, current_length + get_distance(cur_loc, depot_loc), current_length
         )
 
         # We update the max_subtour_length and reset the current_length
         max_subtour_length = torch.where(
-            current_length > td["max_subtour_length"],
-            current_length,
+            closed_length > td["max_subtour_length"],
+            closed_length,
             td["max_subtour_length"],
         )
 
